@@ -222,10 +222,28 @@ def facts(enc) -> CodecFacts:
     return _FACTS[enc]
 
 
-def codec_tok(enc, s):
-    """protocol codec for `enc` restricted to the characters of `s`"""
+UTF_LEAN = {"utf-8": "utf-8", "utf-16": "utf-16", "utf-16-le": "utf-16-le", "utf-16-be": "utf-16-be", "utf-32": "utf-32",
+            "utf-32-le": "utf-32-le", "utf-32-be": "utf-32-be"}
+HANDLERS = {"strict": "s", "ignore": "i", "replace": "r", "xmlcharrefreplace": "x", "backslashreplace": "b"}
+
+
+def lean_codec(enc):
+    """the Lean codec that is this encoding byte for byte: a generated single-byte table or one of the UTFs; else None"""
     if sb_name(enc):
         return "sb:" + tok(sb_name(enc))
+    try:
+        n = codecs.lookup(enc).name
+    except LookupError:
+        return None
+    if n in UTF_LEAN:
+        return "utf:" + tok(UTF_LEAN[n])
+    return None
+
+
+def codec_tok(enc, s):
+    """protocol codec for `enc` restricted to the characters of `s`"""
+    if lean_codec(enc):
+        return lean_codec(enc)
     f = facts(enc)
     encodable = sorted({c for c in s if ord(c) >= 128 and f.can(c)})
     return "set:1:" + tok("".join(encodable))
@@ -549,15 +567,27 @@ def check_encode_string(ctx, batch, enc, s, stream):
             lawful = ref.encode(enc).decode(enc) == ref
         except UnicodeError:
             lawful = False
-    sb = sb_name(enc)
-    if sb:
-        batch.ask(stream, f"enc sb:{tok(sb)} x {tok(s)}", "B:" + btok(out), case, want="B:" + btok(ref.encode(enc)))
+    lc = lean_codec(enc)
+    if lc:
+        batch.ask(stream, f"enc {lc} x {tok(s)}", "B:" + btok(out), case, want="B:" + btok(ref.encode(enc)))
+        batch.ask(stream, f"dec {lc} {btok(out)}", tok(out.decode(enc)), case)
+    # every error handler: byte for byte where Lean has the codec, else on the decoded string (identity "bytes")
+    for hname, h in HANDLERS.items():
+        if hname == "xmlcharrefreplace":
+            continue
         try:
-            strict = "B:" + btok(s.encode(enc))
+            real = "B:" + btok(s.encode(enc, hname))
         except UnicodeEncodeError as ex:
-            strict = f"E:{ex.start}:{ord(s[ex.start])}"
-        batch.ask(stream, f"enc sb:{tok(sb)} s {tok(s)}", strict, case)
-        batch.ask(stream, f"dec sb:{tok(sb)} {btok(out)}", tok(out.decode(enc)), case)
+            real = f"E:{ex.start}:{ord(s[ex.start])}"
+        if lc:
+            batch.ask(stream + "-errors", f"enc {lc} {h} {tok(s)}", real, case | {"errors": hname})
+        elif lawful and f.ascii_ok:
+            if real.startswith("B:"):
+                try:
+                    real = "B:" + tok(s.encode(enc, hname).decode(enc))
+                except UnicodeError:
+                    continue
+            batch.ask(stream + "-errors", f"enc {codec_tok(enc, s)} {h} {tok(s)}", real, case | {"errors": hname})
     if lawful:
         try:
             back = out.decode(enc)
@@ -891,10 +921,21 @@ def check_doc(ctx, batch, recipe, enc, entry, stream):
             real_str = "RAISED " + type(ex).__name__
         tt = tree_tokens(node)
         batch.ask("doc-render", f"render {mode} {tok(enc)} {tt}", tok(real_str), case)
-        if sb_name(enc):
+        lc = lean_codec(enc)
+        if lc:
             ent = {"encode": "e", "prettify": "p", "encode_contents": "c", "encode_contents_body": "c"}[entry]
             real_b = {"e": lambda: root.encode(enc), "p": lambda: root.prettify(enc), "c": lambda: node.encode_contents(encoding=enc)}[ent]()
-            batch.ask("doc-bytes", f"encode {ent} {tok(enc)} sb:{tok(sb_name(enc))} {tt}", "B:" + btok(real_b), case)
+            batch.ask("doc-bytes", f"encode {ent} {tok(enc)} {lc} {tt}", "B:" + btok(real_b), case)
+            if entry == "encode":
+                # Tag.encode(encoding, errors=…): the argument reaches str.encode unchanged
+                for hname, h in HANDLERS.items():
+                    if hname == "xmlcharrefreplace":
+                        continue
+                    try:
+                        rb = "B:" + btok(root.encode(enc, errors=hname))
+                    except UnicodeEncodeError as ex:
+                        rb = f"E:{ex.start}:{ord(ex.object[ex.start])}"
+                    batch.ask("doc-errors", f"encode e{h} {tok(enc)} {lc} {tt}", rb, case | {"errors": hname})
     return found
 
 
@@ -1094,6 +1135,49 @@ def stream_misc(ctx, batch):
     batch.flush()
 
 
+def stream_codecs(ctx, batch):
+    """the strict decoders of the Lean UTF codecs against CPython on valid, damaged and random bytes; BOM sniffing against
+    EncodingDetector.strip_byte_order_mark"""
+    from bs4.dammit import EncodingDetector
+    r = ctx.rng("codecs")
+    for i in range(ctx.n(3000, 20000)):
+        name = r.choice(list(UTF_LEAN))
+        k = r.random()
+        if k < 0.5:
+            txt = "".join(rand_char(r) for _ in range(r.choice([0, 1, 2, 4])))
+            b = bytearray(txt.encode(name, "replace"))
+            if b and r.random() < 0.6:   # damage it
+                for _ in range(r.choice([1, 1, 2])):
+                    if not b:
+                        break
+                    op = r.random()
+                    j = r.randrange(len(b))
+                    if op < 0.4:
+                        b[j] = r.choice([0x80, 0xBF, 0xC0, 0xC1, 0xC2, 0xE0, 0xED, 0xF0, 0xF4, 0xF5, 0xFF, 0xD8, 0xDC, 0xDF, 0x00, 0x10, 0x11, r.randrange(256)])
+                    elif op < 0.7:
+                        del b[j]
+                    else:
+                        b.insert(j, r.choice([0x80, 0xA0, 0xFE, 0xFF, 0x00, r.randrange(256)]))
+            b = bytes(b)
+        else:
+            b = bytes(r.choice([0x00, 0x41, 0x7F, 0x80, 0x9F, 0xA0, 0xBF, 0xC0, 0xC2, 0xDF, 0xE0, 0xEC, 0xED, 0xEF, 0xF0, 0xF4, 0xF5, 0xFE, 0xFF,
+                                0xD8, 0xDB, 0xDC, 0xDF, 0x10, 0x11, r.randrange(256)]) for _ in range(r.choice([1, 2, 3, 4, 5, 8])))
+        try:
+            real = tok(b.decode(name))
+        except UnicodeDecodeError:
+            real = "N"
+        ctx.count("codecs:decode:" + ("rejected" if real == "N" else "accepted"))
+        batch.ask("codecs-decode", f"dec utf:{tok(name)} {btok(b)}", real, {"op": "decode", "encoding": name, "bytes": list(b)})
+        ctx.case(("dec", name, b) if real == "N" else None)
+    boms = [b"\xff\xfe", b"\xfe\xff", b"\xef\xbb\xbf", b"\xff\xfe\x00\x00", b"\x00\x00\xfe\xff", b"\xff", b"\xef\xbb", b"\x00\x00\xfe", b""]
+    for i in range(ctx.n(600, 3000)):
+        b = r.choice(boms) + bytes(r.choice([0, 0, 0x3C, 0x41, 0xFE, 0xFF, r.randrange(256)]) for _ in range(r.choice([0, 0, 1, 2, 3, 5])))
+        real = EncodingDetector.strip_byte_order_mark(b)[1] or "N"
+        batch.ask("codecs-sniff", f"sniff {btok(b)}", real, {"op": "sniff", "bytes": list(b)})
+        ctx.case(("sniff", b) if real != "N" else None)
+    batch.flush()
+
+
 def stream_corpus(ctx, batch):
     from .common import CORPUS
     d = CORPUS / "C08"
@@ -1133,6 +1217,7 @@ def run(ctx: Ctx):
     stream_subst(ctx, batch)
     stream_setup(ctx, batch)
     stream_names(ctx, batch)
+    stream_codecs(ctx, batch)
     stream_xcr(ctx, batch)
     stream_reader(ctx, batch)
     stream_misc(ctx, batch)
